@@ -207,7 +207,9 @@ PROPS = {
                  dict(pkg="h_agent", bin="c01p", cases={"quick": 400, "thorough": 6000},
                       checkers=["corr", "oracle", "corr_bridge"], timeout=2400),
                  dict(pkg="h_agent", bin="c01e", cases={"quick": 150, "thorough": 1500},
-                      checkers=["oracle"], timeout=3000)],
+                      checkers=["oracle"], timeout=3000),
+                 dict(pkg="h_agent", bin="c01w", cases={"quick": 100, "thorough": 1000},
+                      checkers=["corr", "oracle"], timeout=3000)],
         allowed_axioms=[],
         trusted_base=[
             "lanes and remotes are numbers; value / supply bodies are byte strings (possibly empty), map events are entries of the C02 queue model rendered as Recon on the wire and parsed back by the harness; Links is abstracted to the set of (lane, remote) pairs (its bookkeeping is C20's subject)",
@@ -219,7 +221,8 @@ PROPS = {
             "theorems cover the runtime side per remote for any mix of lanes (an event written for a value lane carries the lane's latest value, a newer value replaces the pending one) and one value lane end to end for any number of remotes (Model/ValuePipeline.v: the lane object's dirty flag and sync queue, write_to_buffer, response routing, each remote's uplink specialised to one value lane): every remote's frames are an ordered gap-tolerant view of the lane's history, and a linked remote ends with the current value at quiescence",
             "the single-lane runtime model of Model/ValuePipeline.v is compared with the general write-task model of Model/Uplinks.v on every generated case (vp_bridge_bad) and both with the implementation; stale write-queue entries (which write nothing) are not represented in the specialised model",
             "second harness (c01p): real ValueLane (handlers ValueLaneSet / ValueLaneSync, write_to_buffer) -> byte channel -> the runtime's real ResponseReceiver -> real WriteTaskState::handle_event -> WriteTask futures -> RawResponseMessageDecoder, in lock step with the model; third harness (c01e): the whole stack (AgentRouteTask::run_agent + AgentModel) under its own schedule with small buffers and slow readers, histories recorded by on_set, the view / current-value predicates of the theorems evaluated in Coq on what the remotes read",
-            "not modelled: command decoding; the task interleavings of the agent runtime and the agent's own loop (exercised by c01e only); `settled' in c01e is decided by the harness: the remote had read its linked frame before the lane's last change was commanded and has not asked to unlink since; quiescence is waited for at most 8 s"
+            "fourth harness (c01w): the agent task's own loop records its write bookkeeping (hook verif_trace, thread-local, recorded only when the harness asks): the trace of a run of the real runtime + agent must be a run of Model/WriteLoop.v; what an item answers when asked to write is taken from the trace (an input of the model)",
+            "not modelled: command decoding; the task interleavings of the agent runtime (exercised by c01e only); `settled' in c01e is decided by the harness: the remote had read its linked frame before the lane's last change was commanded and has not asked to unlink since; quiescence is waited for at most 8 s"
         ],
     ),
     "C03": dict(
